@@ -5,7 +5,7 @@
 //!   `poll_write` and `poll_flush` calls in the order they are made; the task is polled again after every `Pending`
 //!  `AP <tid> <max> <pipecap> <wchunk> <rchunk> <pend-script> <schedule> <init>|… => sent=<n> got=<out>,… done=<0|1><0|1> stuck=<0|1>`
 //!   async pair over a bounded in-memory pipe, polled by an explicit schedule and only when woken
-use crate::{de, err_str, guarded, hex, walk_str, DynTarget, Walk, D};
+use crate::{de, err_str, guarded, hex, walk_str, DynTarget, Editable, Op, Walk, D};
 use flatty::prelude::*;
 use flatty_io::{AsyncReceiver, AsyncSender, Receiver, RecvError, Sender};
 use futures::io::{AsyncRead, AsyncWrite};
@@ -219,7 +219,7 @@ fn send_res(one: Option<Result<(), String>>) -> String {
 }
 
 // ---- blocking -----------------------------------------------------------------------------------
-pub fn io_send<T: Flat + DynTarget + ?Sized>(inits: &[D], max: usize, script: &[Ev]) -> String {
+pub fn io_send<T: Flat + DynTarget + Editable + ?Sized>(inits: &[D], max: usize, script: &[Ev]) -> String {
     let st = Rc::new(RefCell::new(WState { script: script.iter().cloned().collect(), ..Default::default() }));
     let mut tx = Sender::<T, _>::io(ScriptWrite(st.clone()), max);
     let mut res = vec![];
@@ -229,11 +229,14 @@ pub fn io_send<T: Flat + DynTarget + ?Sized>(inits: &[D], max: usize, script: &[
             // the uninitialised guard exposes the whole send buffer, the same through both accessors
             let (n1, n2) = (g.as_bytes().len(), g.as_mut_bytes().len());
             if n1 != n2 || n1 < max.max(T::MIN_SIZE) { return Err(format!("GUARD-DIFF:uninit:{}:{}", n1, n2)); }
+            let (d, edits): (&D, &[Op]) = match d { D::Edited(x, ops) => (x, ops), other => (other, &[]) };
             let mut g = match d {
                 // the library's own default path: `UninitSendGuard::default_in_place`
                 D::Def(_) => match T::send_default(g) { Ok(r) => r, Err(_) => panic!("harness: default message of a type without a default") },
                 _ => g.new_in_place(de::<T>(d)),
             }.map_err(|e| format!("emplace:{}", err_str(&e)))?;
+            // the message is then mutated in place through the guard's `DerefMut`, as a user builds a message
+            for op in edits { let m: &mut T = &mut *g; let _ = m.edit(op); }
             // the message seen through `Deref` and `DerefMut` is the same value
             let z1 = g.size();
             let z2 = { let m: &mut T = &mut *g; m.size() };
@@ -320,7 +323,7 @@ fn run_woken<F: Future>(mut fut: Pin<&mut F>, polls: &mut usize) -> Option<F::Ou
         }
     }
 }
-pub fn aio_send<T: Flat + DynTarget + ?Sized>(inits: &[D], max: usize, script: &[Ev]) -> String {
+pub fn aio_send<T: Flat + DynTarget + Editable + ?Sized>(inits: &[D], max: usize, script: &[Ev]) -> String {
     let st = Rc::new(RefCell::new(WState { script: script.iter().cloned().collect(), ..Default::default() }));
     let mut tx = AsyncSender::<T, _>::io(ScriptWrite(st.clone()), max);
     let mut res = vec![];
@@ -333,10 +336,12 @@ pub fn aio_send<T: Flat + DynTarget + ?Sized>(inits: &[D], max: usize, script: &
                 let mut g = tx.alloc().await.map_err(|e| format!("allocerr:{:?}", e.kind()))?;
                 let (n1, n2) = (g.as_bytes().len(), g.as_mut_bytes().len());
                 if n1 != n2 || n1 < max.max(T::MIN_SIZE) { return Err(format!("GUARD-DIFF:uninit:{}:{}", n1, n2)); }
+                let (d, edits): (&D, &[Op]) = match d { D::Edited(x, ops) => (x, ops), other => (other, &[]) };
                 let mut g = match d {
                     D::Def(_) => match T::asend_default(g) { Ok(r) => r, Err(_) => panic!("harness: default message of a type without a default") },
                     _ => g.new_in_place(de::<T>(d)),
                 }.map_err(|e| format!("emplace:{}", err_str(&e)))?;
+                for op in edits { let m: &mut T = &mut *g; let _ = m.edit(op); }
                 let z1 = g.size();
                 let z2 = { let m: &mut T = &mut *g; m.size() };
                 if z1 != z2 { return Err(format!("GUARD-DIFF:init:{}:{}", z1, z2)); }
